@@ -151,6 +151,23 @@ pub fn seed_keys(name: &str) -> Vec<Key> {
             k[0] = 0x90;
             vec![k]
         }
+        // 450 keys sharing 247 bits + 3 far keys (one commit): a branch node whose builder stops
+        // prefix compression (prefix_compressed < n)
+        "pfx" => {
+            let mut v: Vec<Key> = (0..450u64)
+                .map(|i| {
+                    let mut k = [0u8; 32];
+                    k[24..].copy_from_slice(&i.to_be_bytes());
+                    k
+                })
+                .collect();
+            for i in 0..3u8 {
+                let mut k = [0xF0u8; 32];
+                k[31] = i;
+                v.push(k);
+            }
+            v
+        }
         // two values of 70 000 bytes (18 overflow pages each: more than fit the cell's 15
         // pointers) and one of 61 381 bytes (16 pages), plus two small neighbours
         "ovf2" => (0..5u8)
@@ -190,6 +207,7 @@ fn seed_value(name: &str, idx: usize) -> Vec<u8> {
         "leaf" | "branch" => util::value(1000 + idx as u64, 1300),
         "bulk" => util::value(5000 + idx as u64, 1 + idx % 40),
         "ovf" => util::value(77, 5 * 1024 * 1024),
+        "pfx" => util::value(4000 + idx as u64, 1000),
         "ovf2" => util::value(300 + idx as u64, [70000usize, 70000, 61381, 5, 1300][idx]),
         "mixed2" => util::value(2000 + idx as u64, 1300),
         _ => util::value(9000 + idx as u64, 1),
@@ -205,7 +223,7 @@ pub fn build_seed<H: HashAlgorithm>(name: &str, cfg: &Cfg, scratch: &Scratch) ->
         let keys = seed_keys(name);
         if !keys.is_empty() {
             // two commits so that the seed has a non-trivial history (free lists, tombstones)
-            let half = keys.len() / 2;
+            let half = if name == "pfx" { 0 } else { keys.len() / 2 };
             for part in [&keys[..half], &keys[half..]] {
                 if part.is_empty() {
                     continue;
@@ -246,6 +264,14 @@ fn decode_batch(b: &Value, uni: &[Key], tag: u64) -> Batch {
         let size = a.get(2).and_then(|x| x.as_u64()).map(|x| x as usize);
         let key = uni[ki];
         let vtag = tag.wrapping_mul(131).wrapping_add(ki as u64);
+        if code == "dn" {
+            for j in 0..size.unwrap() {
+                if let Some(k) = uni.get(ki + j) {
+                    out.push((*k, Act::Write(None)));
+                }
+            }
+            continue;
+        }
         let act = match code {
             "r" => Act::Read,
             "w" => Act::Write(Some(util::value(vtag, size.unwrap()))),
@@ -344,6 +370,8 @@ pub struct Exec {
     pub cfg: Cfg,
     pub model: Model,
     pub uni: Vec<Key>,
+    /// keys audited in addition to the universe (e.g. every key of the seed state)
+    pub audit_keys: Vec<Key>,
     pub flags: AuditFlags,
     /// decode the on-disk image at every quiescent point: "c16" (structure + kv + merkle) / "c19" (+ leaks)
     pub image: Option<String>,
@@ -385,7 +413,7 @@ impl Exec {
         self.out.transitions += 1;
         let d = self.state_digest();
         self.out.states.push(d);
-        audit::<B3>(self.n(), &self.model, &self.uni, self.flags)
+        audit::<B3>(self.n(), &self.model, &self.audit_keys, self.flags)
             .map_err(|m| viol("audit", format!("{when}: {m}")))?;
         if let Some(mode) = self.image.clone() {
             let img = DirImage::snapshot(&self.dir).map_err(|e| viol("snapshot", format!("{e}")))?;
@@ -1100,7 +1128,9 @@ impl HistX {
         let mut uni: Vec<Key> = vec![];
         for u in case["universe"].as_array().unwrap() {
             let u = u.as_str().unwrap();
-            if let Some(rest) = u.strip_prefix("seed:") {
+            if u == "seed:all" {
+                uni.extend(seed_keys(&seed_name));
+            } else if let Some(rest) = u.strip_prefix("seed:") {
                 // seed:<a>,<b>,… indices into the seed's key list
                 let keys = seed_keys(&seed_name);
                 for i in rest.split(',') {
@@ -1111,6 +1141,12 @@ impl HistX {
             }
         }
         let flags = flags_of(case["audit"].as_str().unwrap_or("all"));
+        let mut audit_keys = uni.clone();
+        if case["audit_seed_keys"].as_bool().unwrap_or(false) {
+            audit_keys.extend(seed_keys(&seed_name));
+            audit_keys.sort();
+            audit_keys.dedup();
+        }
         let dir = self.fresh_dir();
         let seed = self.seed(&seed_name, &cfg);
         seed.image.materialize(&dir).expect("materialize seed");
@@ -1122,6 +1158,7 @@ impl HistX {
             cfg: cfg.clone(),
             model,
             uni,
+            audit_keys,
             flags,
             image: case["image"].as_str().map(|s| s.to_string()),
             bumps: vec![],
